@@ -68,10 +68,15 @@ class FakeFile:
         self.fs, self.ino, self.text = fs, ino, text
         self.buf = b''
         self.closed = False
+        self.pos = 0                 # file offset of the descriptor: a fresh descriptor starts at 0, also on an existing inode
 
     def _drain(self):
         if self.buf:
-            self.ino.kernel = self.ino.kernel + self.buf
+            k = self.ino.kernel
+            self.ino.kernel = k[:self.pos] + self.buf + k[self.pos + len(self.buf):]
+            if self.pos < self.ino.durable:
+                self.ino.durable = self.pos       # overwritten bytes are no longer known to be on disk
+            self.pos += len(self.buf)
             self.buf = b''
             self.ino.log.append('write(2)')
 
